@@ -5,8 +5,9 @@
    the whole range. *)
 From Coq Require Import List NArith Bool String.
 Import ListNotations.
-From SygmaV Require Export Lib.RunLib Model.C06.
-From SygmaV Require Import Lib.Hex Lib.C01_Bytes Model.C01.
+From Coq Require Export Uint63.
+From SygmaV Require Export Lib.RunLib Lib.C06_Pack Model.C06.
+From SygmaV Require Import Lib.C01_Bytes Model.C01.
 Local Open Scope N_scope.
 
 (* handler kind whose wire format applies; KNone: never well-formed (unknown resource, log that does
@@ -21,11 +22,12 @@ Inductive hkind := KErc20 | KErc721 | KErc1155 | KGeneric | KSub | KBtc | KNone.
 Inductive measured := MOk (dest : N) | MErr | MPanic | MSkip.
 
 (* i_nonce: the deposit nonce the event carries (BTC: the transaction, whose hash and the block number
-   determine the nonce).  Deposits of one case may share it. *)
-Record item := mkItem { i_kind : hkind; i_dest : N; i_nonce : N; i_data : string; i_hr : string;
+   determine the nonce).  Deposits of one case may share it.  i_data / i_hr: the bytes, packed (Lib/C06_Pack.v:
+   length + 7 bytes per primitive integer; a string literal costs the elaborator 30 times more). *)
+Record item := mkItem { i_kind : hkind; i_dest : N; i_nonce : N; i_data : pk; i_hr : pk;
                         i_meas : measured; i_fp : N; i_st : status }.
 
-Definition hx (s : string) : bytes := bytes_of_Ns (unhex s).
+Definition hx (p : pk) : bytes := unpk p.
 
 Definition as_dep (it : item) : Model.C01.deposit :=
   mkDep 0 (i_dest it) 0 [] (hx (i_data it)) (hx (i_hr it)) 19000.
@@ -66,9 +68,18 @@ Definition to_events (es : list ievent) : list revent :=
    arrives on the message channel to sygma-core's real Relayer.Start/route over fake destination chains),
    failed (an error was returned), the groups as (destination, (nonce, content)s) sorted by destination =
    what each destination chain received through route; sent = the batches as they arrived on the message
-   channel, each message as Some (its destination, (nonce, content)) or None (a nil *message.Message), sorted. *)
+   channel, each message as Some (its destination, (nonce, content)) or None (a nil *message.Message), sorted;
+   hp = the (chain kind, message) pairs on which the REAL destination-side message handler of that chain kind
+   (1 EVM TransferMessageHandler, 2 SubstrateMessageHandler, 3 BTC FungibleMessageHandler) panicked when route handed
+   it the message (every message goes to the handlers of all three kinds; in the relayer binary nothing recovers
+   on the route goroutine: the process would be dead).
+   A CONCURRENT case (runner: "conc") is printed the same way: one range, its calls made thousands of times from
+   several goroutines on the ONE handler object the listener and the retry message handler share (as app.go wires
+   them), in a child process of its own; crashed = that child died (a fatal runtime error cannot be recovered),
+   impl / sent = the result of the first call that differed from the sequential reference call, or the common
+   result when none did. *)
 Inductive case := Case (p : path) (ies : list ievent) (crashed hung failed : bool) (impl : list (N * list (N * N)))
-                       (sent : list (list (option (N * (N * N))))).
+                       (sent : list (list (option (N * (N * N))))) (hp : list (N * (N * (N * N)))).
 
 Definition to_groups (l : list (N * list (N * N))) : groups :=
   map (fun kn => (fst kn, map (fun n => (fst kn, n)) (snd kn))) l.
@@ -105,9 +116,9 @@ Definition sent_eqb (g : groups) (sent : list batch) : bool :=
 
 Definition agree (c : case) : bool :=
   match c with
-  | Case p ies crashed hung failed impl sent =>
+  | Case p ies crashed hung failed impl sent hp =>
       let es := to_events ies in
-      negb crashed && negb hung &&
+      negb crashed && negb hung && down_ok hp &&
       match run p es, impl_result failed impl with
       | Done g, Done g' => groups_eqb g g' && sent_eqb g sent
       | Failed, Failed => true
@@ -117,8 +128,8 @@ Definition agree (c : case) : bool :=
 
 Definition judge (c : case) : bool :=
   match c with
-  | Case p ies crashed hung failed impl sent =>
-      Model.C06.spec_ok p (to_events ies) (crashed || hung) (impl_result failed impl) && sent_ok sent
+  | Case p ies crashed hung failed impl sent hp =>
+      Model.C06.spec_ok p (to_events ies) (crashed || hung) (impl_result failed impl) && sent_ok sent && down_ok hp
   end.
 
 Definition is_bad (x : Model.C06.deposit * status) : bool := match fst x with Bad _ => true | _ => false end.
@@ -133,7 +144,7 @@ Definition item_nonces (ies : list ievent) : list N :=
 (* branch tag: path x (some poisoned deposit present?) x (some message owed?) x (deposits share a nonce?) *)
 Definition tag (c : case) : N :=
   match c with
-  | Case p ies _ _ _ _ _ =>
+  | Case p ies _ _ _ _ _ _ =>
       let es := to_events ies in
       (if shared_nonce (item_nonces ies) then 20 else 0) +
       (match p with EvmDeposits => 0 | SubDeposits => 4 | BtcDeposits => 8 | EvmRetryV1 => 12 | SubRetry => 16 end)
